@@ -19,10 +19,11 @@ type Family struct {
 	Slots    [][]string // per transaction slot: its op alphabet
 	MaxOps   []int      // per slot: max ops before the end op
 	Ends     []string   // end ops for scripts with writes
+	SlotEnds [][]string // optional per-slot override of Ends
 	Reduce   bool       // prune merges equivalent under commuting independent steps
 	Symmetry bool       // all slots identical and alphabet closed under a<->b: enumerate canonical tuples only
 	Fresh    bool       // every history on a fresh DB (else: long-lived DB, one key namespace per history)
-	Warm     int        // Fresh: number of committed warm-up transactions before the history
+	Warm     int        // Fresh: prelude before the history: 0 none (empty DB, read ts 0), 1|2 that many committed transactions, 3 one commit followed by begin+discard (the next begin reuses a finished read ts)
 	EnvSets  [][]string // environment step lists inserted at every position (nil: none)
 	Cfg      dbh.Config
 }
@@ -94,7 +95,11 @@ func cfgWithConflicts(c dbh.Config, longLived bool) dbh.Config {
 
 // warmUp commits n single-key transactions in a side namespace so that the oracle has
 // history (read timestamps > 0) before the history under test starts.
-func warmUp(e *Env, n int) error {
+func warmUp(e *Env, kind int) error {
+	n := kind
+	if kind == 3 {
+		n = 1
+	}
 	for i := 0; i < n; i++ {
 		e.NS = fmt.Sprintf("~warm%d/", i)
 		x, err := Run(e, []Step{{1, "begin"}, {1, "set:w"}, {1, "commit"}})
@@ -103,6 +108,12 @@ func warmUp(e *Env, n int) error {
 		}
 		if len(x.Findings) > 0 {
 			return fmt.Errorf("warm-up transaction failed: %v", x.Findings[0])
+		}
+	}
+	if kind == 3 {
+		e.NS = "~warmro/"
+		if _, err := Run(e, []Step{{1, "begin"}, {1, "discard"}}); err != nil {
+			return err
 		}
 	}
 	return nil
@@ -193,7 +204,7 @@ func (d *Driver) Execute(f *Family, h []Step) {
 		// confirm on fresh databases: identical signature three times
 		warms := []int{f.Warm}
 		if !f.Fresh {
-			warms = []int{0, 1, 2}
+			warms = []int{0, 1, 2, 3}
 		}
 		d.Close() // one DB per process at a time
 		confirmedWarm := -1
@@ -215,7 +226,7 @@ func (d *Driver) Execute(f *Family, h []Step) {
 		}
 		d.reported[fd.Sig] = true
 		rp, _ := json.Marshal(Replay{Family: f.Name, Warm: confirmedWarm, History: Format(h)})
-		p.Viol(fd.Sig, fmt.Sprintf("%s\n  history (family %s, %d warm-up commits): %s\n  observed: %s", fd.Desc, f.Name, confirmedWarm, Format(h), strings.Join(x.Outcome, " ")), string(rp))
+		p.Viol(fd.Sig, fmt.Sprintf("%s\n  history (family %s, prelude %d): %s\n  observed: %s", fd.Desc, f.Name, confirmedWarm, Format(h), strings.Join(x.Outcome, " ")), string(rp))
 	}
 }
 
@@ -232,7 +243,11 @@ func hasSig(fs []Finding, sig string) bool {
 func (d *Driver) Enumerate(f *Family, sh vr.ShardInfo, expired func() bool) {
 	lists := make([][]Script, len(f.Slots))
 	for i := range f.Slots {
-		lists[i] = Scripts(f.Slots[i], f.MaxOps[i], f.Ends)
+		ends := f.Ends
+		if f.SlotEnds != nil {
+			ends = f.SlotEnds[i]
+		}
+		lists[i] = Scripts(f.Slots[i], f.MaxOps[i], ends)
 	}
 	idx := make([]int, len(lists))
 	item := 0
